@@ -411,7 +411,10 @@ where
         let mut acc = Vec::new();
         let parsers = inner_parser.unwrap_or_default();
         for parser in parsers {
-            let parser_start = parser.to_range().shift(parser.offset).start;
+            // the old start of the node is relative to the enclosing reference,
+            // the positions of the token change and of the input are absolute
+            let parser_start =
+                parser.to_range().shift(parser.offset).start + input.get_old_reference();
             let (i, _) = match handle_insertions(input.clone(), parser_start, &mut acc) {
                 Ok(result) => result,
                 Err(nom::Err::Error(err)) => return Ok((err.input, acc)),
